@@ -378,6 +378,13 @@ func (r *UnifiedMemoryModelRegistry) RemoveEndpoint(ctx context.Context, endpoin
 	r.unificationMutex.Lock()
 	defer r.unificationMutex.Unlock()
 
+	// A RegisterModels that got in after the base removal has superseded it: its unification
+	// converges on that listing, and clearing the unified side now would leave the endpoint
+	// listed in the base registry but missing from the catalogue.
+	if current, cerr := r.MemoryModelRegistry.GetModelsForEndpoint(ctx, endpointURL); cerr == nil && len(current) > 0 {
+		return nil
+	}
+
 	// The unifier keeps its own catalogue, which alias/name resolution reads: an empty listing
 	// makes it drop this endpoint as well, otherwise lookups by alias keep returning it.
 	if _, uerr := r.unifier.UnifyModels(ctx, nil, &domain.Endpoint{URLString: endpointURL, Name: endpointURL}); uerr != nil {
